@@ -760,7 +760,13 @@ PROPS = {
         prop_file="Properties/C07.v",
         check_module="C07Check",
         theorems={t: [] for t in ["C07_table_refines", "C07_append_key_least", "C07_set_then_get",
-                                  "C07_key_equality_is_value_equality"]},
+                                  "C07_key_equality_is_value_equality",
+                                  "C07_vm_table_object", "C07_vm_set_in_place_or_append", "C07_vm_set_then_get", "C07_vm_table_append",
+                                  "C07_vm_key_equality", "C07_vm_init_table", "C07_vm_get_property",
+                                  "C07_vm_set_property", "C07_vm_len", "C07_vm_append_table",
+                                  "C07_vm_pop_table", "C07_vm_nth_row", "C07_vm_for_each",
+                                  "C07_vm_reference_sharing", "C07_vm_tables_wf_preserved",
+                                  "C07_vm_tables_wf_initial"]},
         n_quick=150, n_thorough=2500,
         gates=["tb.pop_then_append", "tb.more_than_8_entries", "tb.string_keys", "tb.removed_present"],
         rule="random histories (15-250 ops) on a CaoLangTable obtained from a Vm: insert / remove / append / pop / "
@@ -776,9 +782,23 @@ PROPS = {
         assumptions=[
             "keys are nil, integers, strings, finite non-zero reals (the property's key domain); NaN and signed "
             "zero keys are outside",
-            "the table instructions of the VM (Get/SetProperty, AppendTable, PopTable, NthRow, Len, ForEach) and "
-            "sharing of one table through several variables are exercised by the VM-level checks, not by this "
-            "host-API stream",
+            "the table instructions of the VM (InitTable, Get/SetProperty, AppendTable, PopTable, NthRow, Len, "
+            "ForEach) and sharing of one table through several references are under the C07_vm_* theorems about "
+            "the VM model Vm.v (tied to the code by the VM / C03 / C17 / C18 correspondence runs), not under this "
+            "host-API stream: the VM's table representation (map part + key vector) refines the ordered "
+            "association list for every key equality that answers and is reflexive on the key domain; the VM's == "
+            "is such an equality on nil, integers, non-NaN reals and live non-table objects (strings by content), "
+            "stable under heap growth",
+            "C07_vm_tables_wf_preserved (every opcode and every native keeps the invariant of every table of the "
+            "heap) is a one-step theorem with two hypotheses: the key of a SetProperty lies in the key domain (a "
+            "NaN key, a table used as key or a dangling address breaks the alignment of map part and key vector - "
+            "the code has no guard), and nested runs started by natives keep the invariant (the same statement one "
+            "level down); no run-level induction over nesting depth is stated",
+            "remove deletes every entry whose key is == to the argument (for reals: also the other zero), which is "
+            "what keys.retain does; it coincides with deleting the entry that get finds when == and the hash test "
+            "agree on the table's keys (VmTableProofs.al_remove_single)",
+            "table keys that are tables (compared by content, mutable) and NaN keys are outside the VM-level "
+            "theorems",
             "i64 overflow of the append index (2^63 entries) is not modelled",
         ],
     ),
